@@ -79,6 +79,28 @@ Theorem C13_record_is_source : forall cmd out fws,
   = Some (match r_failed (record cmd out fws) with Some _ => true | None => false end).
 Proof. exact record_is_source. Qed.
 
+(* MultiResponse.AppendResponse as the source has it: appending any list of responses to an empty
+   multi response leaves exactly those members, lists exactly the failed ones (in order) and sets
+   the aggregate exactly when one of them failed *)
+Theorem C13_append_is_source : forall l,
+  ar_steps ([], [], false) l = Some (l, multi_failed l, collapse_failed l).
+Proof. exact append_response_is_source. Qed.
+
+(* Driver.SendCommands as the source has it: for every non-empty command list, every pattern of
+   failed responses and stop-on-failed on or off, it transmits as many commands (an initial segment,
+   by the shape of the loop) as the model's loop, appends one response per transmitted command, and
+   returns the multi response; [C13_send_loop_count] reads the model's loop on the same flags *)
+Theorem C13_send_commands_is_source : forall stop init l,
+  let fl := (init ++ [l])%list in
+  sc2_run stop fl = Some (loop_count stop fl, loop_count stop fl,
+                          match fidx stop init 0 with Some _ => "m, err" | None => "m, nil" end)%string.
+Proof. exact send_commands_is_source. Qed.
+
+Theorem C13_send_loop_count : forall fws stop cmds,
+  length (send_loop fws stop cmds)
+  = loop_count stop (map (fun co => is_failed (record (fst co) (snd co) fws)) cmds).
+Proof. exact send_loop_count. Qed.
+
 Print Assumptions C13_failed_iff.
 Print Assumptions C13_failed_first.
 Print Assumptions C13_precedence.
@@ -88,3 +110,6 @@ Print Assumptions C13_stop.
 Print Assumptions C13_collapse.
 Print Assumptions C13_scan_is_source.
 Print Assumptions C13_record_is_source.
+Print Assumptions C13_append_is_source.
+Print Assumptions C13_send_commands_is_source.
+Print Assumptions C13_send_loop_count.
